@@ -462,8 +462,16 @@ func (f *Filter) HashMatchAny(key [KeySize]byte, data [][]byte) (bool, error) {
 
 	b := bstream.NewBStreamReader(filterData)
 
+	// Every encoded value occupies at least one bit, so the bit length of the
+	// filter data bounds the number of values; do not trust a larger N (it
+	// comes from the serialized form) when sizing the map.
+	sizeHint := uint64(f.N())
+	if maxValues := uint64(len(filterData)) * 8; sizeHint > maxValues {
+		sizeHint = maxValues
+	}
+
 	var (
-		values    = make(map[uint64]struct{}, f.N())
+		values    = make(map[uint64]struct{}, sizeHint)
 		lastValue uint64
 	)
 
